@@ -58,7 +58,7 @@ def field_options_U2():
     A, B, C = PK["A"], PK["B"], PK["C"]
     return {
         "authors": [[A], [B], [A, B]],
-        "kinds": [[1], [2], [1, 2]],
+        "kinds": [[1], [2], [1, 2], [0, 2]],
         "#t": [["a"], ["ab"], ["a", "ab"], ["a\x00z"], ["a\x00"], ["a", "a\x00z"]],
         "#e": [["a"], ["ab"], ["a", "ab"], ["zz"]],
         "#p": [[A]],
@@ -112,7 +112,7 @@ def field_options():
         "ids": [[ids["a_k1_t10_ea"]], [ids["a_k1_t20_idff"]], [ids["a_k1_t20_id00"], ids["b_k1_t20_eb"]], [absent_id],
                 [ids["a_k1_t20_idff"], ids["a_k1_t20_id00"], ids["a_k255_T_nul"]]],
         "authors": [[A], [B], [A, B], [C], [PK["S"]]],
-        "kinds": [[1], [2], [1, 2], [255], [256], [255, 256], [7], [0, 1, 257]],
+        "kinds": [[1], [2], [1, 2], [255], [256], [255, 256], [7], [0, 1, 257], [1, 3], [254, 256]],  # the last two: one stored kind in the gap
         "#e": [["a"], ["ab"], ["a", "ab"], ["b"], ["abc", "a"], ["zz"]],
         "#p": [[A], [A, B]],
         "#t": [["é"], ["it's"], ["a\x00b", "a"]],
